@@ -344,7 +344,6 @@ Proof.
     unfold result_solo. f_equal. eapply unfold_wf; eauto.
 Qed.
 
-Definition outside (p : pc) : Prop := p = PEnter \/ p = PWait.
 
 Record ginv (k : nat) (g : graph) (calls : list (list name)) (st : state) : Prop := mkGinv {
   gi_len : length (s_thr st) = length calls;
